@@ -128,7 +128,7 @@ func init() {
 	parserJudges["C06"] = judgeC06
 	register(&Check{
 		ID:        "C06",
-		QuickSecs: 900, ThoroSecs: 2400,
+		QuickSecs: 900, ThoroSecs: 3000,
 		Rule: "input-space exploration: every argv of length <= L-1 over 40 tokens and of length L over the first 22 of them (every name and alias of 8 options of 6 kinds, half declared through *Var, one bound to an environment variable, one marked SetCalled, one with a multibyte one-letter alias; short spellings of one-letter aliases; the help option of HelpCommand and its aliases; values, positional, unknown option, command, UnsetOptions wrapper command) x 3 modes x environment {unset, valid, text that is not valid for the bound bool}; " +
 			"absolute: values (pointer, *Var target and Value() agree), Called, CalledAs compared with the reference model, untouched options keep defaults; metamorphic: replacing any occurrence of a name by any other alias of the same option changes nothing but CalledAs; " +
 			"distinct_nontrivial = distinct in-domain cases",
